@@ -319,8 +319,9 @@ theorem tobytes_eq (s : Store) : s.tobytes = toBytes s.bin := by
 
 /-- One chunk of a well-formed store: `take bits` of what is left. -/
 theorem cut_chunk (s : Store) (h : s.WF) (bits start : Nat) :
-    s.getslice (some (start : Int)) (some ((min (start + bits) s.buf.length : Nat) : Int))
+    s.getsliceMode false (some (start : Int)) (some ((min (start + bits) s.buf.length : Nat) : Int))
       = ⟨(s.buf.drop start).take bits, none, false⟩ := by
+  simp only [Store.getsliceMode, Bool.false_eq_true, if_false]
   rw [wf_getslice s h, pySlice_nat]
   congr 1
   rw [List.take_eq_take_iff]
@@ -329,9 +330,9 @@ theorem cut_chunk (s : Store) (h : s.WF) (bits start : Nat) :
 
 theorem cutLoop_spec (s : Store) (h : s.WF) (bits : Nat) (hpos : 0 < bits) (fuel start : Nat)
     (hs : start ≤ s.buf.length) (hf : s.buf.length - start < fuel) :
-    ((cutLoop s bits s.buf.length fuel start).map Store.bin).flatten = s.buf.drop start ∧
+    ((cutLoop false s bits s.buf.length fuel start).map Store.bin).flatten = s.buf.drop start ∧
     (bits % 8 = 0 →
-      (cutLoop s bits s.buf.length fuel start).flatMap Store.tobytes = toBytes (s.buf.drop start)) := by
+      (cutLoop false s bits s.buf.length fuel start).flatMap Store.tobytes = toBytes (s.buf.drop start)) := by
   induction fuel generalizing start with
   | zero => omega
   | succ fuel ih =>
@@ -371,7 +372,7 @@ theorem cutLoop_spec (s : Store) (h : s.WF) (bits : Nat) (hpos : 0 < bits) (fuel
           rw [tobytes_eq, bin_of_none _ rfl, htk]
 
 theorem tofile_eq (chunk : Nat) (s : Store) (hwf : s.WF) (h8 : chunk % 8 = 0) (hpos : 0 < chunk) :
-    tofile chunk s = .ok (toBytes s.bin) := by
+    tofile false chunk s = .ok (toBytes s.bin) := by
   unfold tofile cut
   have hc : ¬ chunk = 0 := by omega
   simp only [hc, if_false, Except.map]
@@ -380,7 +381,7 @@ theorem tofile_eq (chunk : Nat) (s : Store) (hwf : s.WF) (h8 : chunk % 8 = 0) (h
   rw [this]; simp
 
 theorem cut_flatten_eq (chunk : Nat) (s : Store) (hwf : s.WF) (hpos : 0 < chunk) (cs : List Store)
-    (h : cut s chunk = .ok cs) : (cs.map Store.bin).flatten = s.bin := by
+    (h : cut false s chunk = .ok cs) : (cs.map Store.bin).flatten = s.bin := by
   unfold cut at h
   have hc : ¬ chunk = 0 := by omega
   simp only [hc, if_false] at h
@@ -390,6 +391,61 @@ theorem cut_flatten_eq (chunk : Nat) (s : Store) (hwf : s.WF) (hpos : 0 < chunk)
   have := (cutLoop_spec s hwf chunk hpos (s.buf.length + 1) 0 (by omega) (by omega)).1
   simpa using this
 
+/-- `getslice_lsb0(a, b)` of a well-formed store, for positions inside it: the same stretch counted from the end. -/
+theorem getsliceLsb0_nat (s : Store) (h : s.WF) (a b : Nat) (hab : a ≤ b) (hb : b ≤ s.buf.length) :
+    s.getsliceLsb0 (some (a : Int)) (some (b : Int))
+      = ⟨(s.buf.drop (s.buf.length - b)).take (b - a), none, false⟩ := by
+  unfold Store.getsliceLsb0
+  rw [wf_len s h, sliceIndices_one]
+  simp only [clamp1]
+  have ha' : ¬ ((a : Int) < 0) := by omega
+  have hb' : ¬ ((b : Int) < 0) := by omega
+  simp only [ha', hb', if_false]
+  have e1 : (s.buf.length : Int) - min (b : Int) (s.buf.length : Int) = ((s.buf.length - b : Nat) : Int) := by omega
+  have e2 : (s.buf.length : Int) - min (a : Int) (s.buf.length : Int) = ((s.buf.length - a : Nat) : Int) := by omega
+  rw [e1, e2, pySlice_nat]
+  congr 2
+  omega
+
+/-- Under lsb0 too, the loop stops once `start_` has reached the end. -/
+theorem cutLoop_lsb0_end (s : Store) (hwf : s.WF) (bits fuel : Nat) :
+    cutLoop true s bits s.buf.length fuel s.buf.length = [] := by
+  cases fuel with
+  | zero => rfl
+  | succ fuel =>
+    have hm : min (s.buf.length + bits) s.buf.length = s.buf.length := by omega
+    simp only [cutLoop, Store.getsliceMode, if_true]
+    rw [hm, getsliceLsb0_nat s hwf s.buf.length s.buf.length (by omega) (by omega)]
+    simp [Store.len]
+
+/-- Under lsb0 a bitstring that fits in one chunk is still written whole. -/
+theorem tofile_lsb0_single (chunk : Nat) (s : Store) (hwf : s.WF) (hpos : 0 < chunk)
+    (hfit : s.bin.length ≤ chunk) : tofile true chunk s = .ok (toBytes s.bin) := by
+  rw [wf_bin s hwf] at hfit ⊢
+  unfold tofile cut
+  have hc : ¬ chunk = 0 := by omega
+  simp only [hc, if_false, Except.map]
+  rw [wf_len s hwf]
+  have hmin : min (0 + chunk) s.buf.length = s.buf.length := by omega
+  have first : s.getsliceMode true (some ((0 : Nat) : Int)) (some ((min (0 + chunk) s.buf.length : Nat) : Int))
+      = ⟨s.buf, none, false⟩ := by
+    simp only [Store.getsliceMode, if_true]
+    rw [hmin, getsliceLsb0_nat s hwf 0 s.buf.length (by omega) (by omega)]
+    simp
+  simp only [cutLoop]
+  rw [first]
+  simp only [Store.len]
+  by_cases h0 : s.buf.length = 0
+  · have : s.buf = [] := List.eq_nil_of_length_eq_zero h0
+    simp [this, toBytes_nil]
+  · simp only [h0, if_false]
+    by_cases hfull : s.buf.length = chunk
+    · subst hfull
+      have hend := cutLoop_lsb0_end s hwf s.buf.length s.buf.length
+      simp only [ne_eq, not_true_eq_false, if_false, Nat.zero_add]
+      rw [hend]
+      simp [tobytes_eq, bin_of_none]
+    · simp [hfull, tobytes_eq, bin_of_none]
 
 /-! ### windows -/
 
@@ -548,28 +604,18 @@ theorem frombuffer_wf (data : Bytes) (length : Option Int) (s : Store)
     · cases h
     · split at h
       · cases h
-      · split at h
-        · injection h with h; subst h; exact wf_of_none _ rfl
-        · injection h with h; subst h
-          intro m hm
-          simp only [Option.some.injEq] at hm
-          subst hm
-          simp only [bytesToBits_length] at *
-          omega
+      · injection h with h; subst h; exact wf_of_none _ rfl
 
-/-- `_setfile` on a valid window of a non-empty file. -/
-theorem setFile_valid (data : Bytes) (off len : Option Int) (hne : data ≠ [])
+/-- `_setfile` on a valid window (any file size, the empty file included). -/
+theorem setFile_valid (data : Bytes) (off len : Option Int)
     (h : validWindow (8 * data.length) off len = true) :
     ∃ s, setFile data len off = .ok s ∧ s.WF ∧ s.bin = readSpec data off len := by
   rw [validWindow_iff] at h
   obtain ⟨h1, h2, h3⟩ := h
-  have hlen : ¬ data.length = 0 := by
-    intro h0; exact hne (List.eq_nil_of_length_eq_zero h0)
   rw [readSpec_def]
   unfold setFile
-  simp only [hlen, if_false]
   have hoff : off.getD 0 = offD off := rfl
-  rw [hoff]
+  simp only [hoff]
   by_cases ho : offD off = 0
   · simp only [ho, if_true, Int.toNat_zero, List.drop_zero]
     cases len with
@@ -584,22 +630,16 @@ theorem setFile_valid (data : Bytes) (off len : Option Int) (hne : data ≠ [])
       have c1 : ¬ (L < 0) := by omega
       have c2 : ¬ (L > ((bytesToBits data).length : Int)) := by simp; omega
       simp only [c1, c2, if_false]
+      refine ⟨_, rfl, wf_of_none _ rfl, ?_⟩
+      rw [bin_of_none _ rfl]
       by_cases c3 : L < ((bytesToBits data).length : Int)
       · simp only [c3, if_true]
-        refine ⟨_, rfl, wf_of_none _ rfl, ?_⟩
-        rw [bin_of_none _ rfl]
         have := pySlice_none_some (bytesToBits data) L.toNat
         rw [Int.toNat_of_nonneg (by omega)] at this
         exact this
       · simp only [c3, if_false]
-        have hL : L.toNat = (bytesToBits data).length := by simp at c3 ⊢; omega
-        have hwf : Store.WF ⟨bytesToBits data, some L.toNat, true⟩ := by
-          intro m hm
-          simp only [Option.some.injEq] at hm
-          show m = (bytesToBits data).length
-          omega
-        refine ⟨_, rfl, hwf, ?_⟩
-        rw [wf_bin _ hwf, hL, List.take_of_length_le (by omega)]
+        have hL : (bytesToBits data).length ≤ L.toNat := by simp at c3 ⊢; omega
+        rw [List.take_of_length_le hL]
   · simp only [ho, if_false]
     have hpos : 0 < offD off := by omega
     cases len with
@@ -627,7 +667,6 @@ theorem setFile_valid (data : Bytes) (off len : Option Int) (hne : data ≠ [])
         simp [Store.len]; omega
       simp only [c1, if_false]
       exact ⟨_, rfl, wf_of_none _ rfl, bin_of_none _ rfl⟩
-
 
 /-! ### classes, construct -/
 
@@ -664,18 +703,16 @@ theorem setBytesIO_wf (data : Bytes) (off len : Option Int) (s : Store)
 theorem setFile_wf (data : Bytes) (off len : Option Int) (s : Store)
     (h : setFile data len off = .ok s) : s.WF := by
   unfold setFile at h
+  simp only at h
   split at h
-  · cases h
-  · simp only at h
-    split at h
-    · exact frombuffer_wf _ _ _ h
+  · exact frombuffer_wf _ _ _ h
+  · split at h
     · split at h
-      · split at h
-        · cases h
-        · injection h with h; subst h; exact wf_of_none _ (getslice_modLen _ _ _)
-      · split at h
-        · cases h
-        · injection h with h; subst h; exact wf_of_none _ (getslice_modLen _ _ _)
+      · cases h
+      · injection h with h; subst h; exact wf_of_none _ (getslice_modLen _ _ _)
+    · split at h
+      · cases h
+      · injection h with h; subst h; exact wf_of_none _ (getslice_modLen _ _ _)
 
 theorem construct_ok_iff (cls : Cls) (k : Src) (data : Bytes) (off len : Option Int) (s : Store) :
     construct cls k data len off = .ok s ↔
@@ -699,25 +736,25 @@ theorem construct_wf' (cls : Cls) (k : Src) (data : Bytes) (off len : Option Int
   · exact setFile_wf _ _ _ _ h0
 
 theorem construct_valid (cls : Cls) (k : Src) (data : Bytes) (off len : Option Int)
-    (hk : k = .file → data ≠ []) (h : validWindow (8 * data.length) off len = true) :
+    (h : validWindow (8 * data.length) off len = true) :
     ∃ s, construct cls k data len off = .ok s ∧ s.WF ∧ s.bin = readSpec data off len := by
-  have core : ∃ s0, (match k with
+  have core : ∃ s0, ((match k with
              | .bytes => setBytes data len off
              | .bytesio => setBytesIO data len off
-             | .file => setFile data len off) = .ok s0 ∧ s0.WF ∧ s0.bin = readSpec data off len := by
+             | .file => setFile data len off) : Except Err Store) = .ok s0 ∧ s0.WF ∧ s0.bin = readSpec data off len := by
     cases k
     · exact ⟨_, setBytes_valid data off len h, wf_of_none _ rfl, bin_of_none _ rfl⟩
     · exact ⟨_, setBytesIO_valid data off len h, wf_of_none _ rfl, bin_of_none _ rfl⟩
-    · exact setFile_valid data off len (hk rfl) h
+    · exact setFile_valid data off len h
   obtain ⟨s0, h0, hwf, hbin⟩ := core
   refine ⟨finish cls s0, ?_, (finish_good cls s0 hwf).1, ?_⟩
   · rw [construct_ok_iff]; exact ⟨s0, h0, rfl⟩
   · rw [(finish_good cls s0 hwf).2, hbin]
 
 theorem construct_valid_bin (cls : Cls) (k : Src) (data : Bytes) (off len : Option Int)
-    (hk : k = .file → data ≠ []) (h : validWindow (8 * data.length) off len = true) :
+    (h : validWindow (8 * data.length) off len = true) :
     (construct cls k data len off).map Store.bin = .ok (readSpec data off len) := by
-  obtain ⟨s, hs, _, hb⟩ := construct_valid cls k data off len hk h
+  obtain ⟨s, hs, _, hb⟩ := construct_valid cls k data off len h
   rw [hs]; simp [Except.map, hb]
 
 
@@ -742,31 +779,26 @@ theorem valid_toBytes (l : Bits) :
   simp only [offD, lenD, Option.getD_none, Option.getD_some]
   omega
 
-theorem roundtrip_eq (cls : Cls) (k : Src) (chunk : Nat) (l : Bits) (h8 : chunk % 8 = 0) (hpos : 0 < chunk)
-    (hne : k = .file → l ≠ []) :
-    (tofile chunk (Store.mem l) >>= fun w =>
+theorem roundtrip_eq (cls : Cls) (k : Src) (chunk : Nat) (l : Bits) (h8 : chunk % 8 = 0) (hpos : 0 < chunk) :
+    (tofile false chunk (Store.mem l) >>= fun w =>
       (construct cls k w (some (l.length : Int)) none).map Store.bin) = .ok l := by
   rw [tofile_eq chunk _ (wf_mem l) h8 hpos, ok_bind, bin_of_none _ rfl]
   show (construct cls k (toBytes l) (some (l.length : Int)) none).map Store.bin = .ok l
-  rw [construct_valid_bin cls k (toBytes l) none (some (l.length : Int))
-    (fun hk => toBytes_ne_nil l (hne hk)) (valid_toBytes l), readSpec_toBytes]
+  rw [construct_valid_bin cls k (toBytes l) none (some (l.length : Int)) (valid_toBytes l), readSpec_toBytes]
 
 theorem arrayTobytes_eq' (data : Bits) : arrayTobytes data = toBytes data := by
   unfold arrayTobytes; rw [tobytes_eq, bin_of_none _ rfl]; rfl
 
 theorem arrayTofile_eq' (chunk : Nat) (data : Bits) (h8 : chunk % 8 = 0) (hpos : 0 < chunk) :
-    arrayTofile chunk data = .ok (toBytes data) := by
+    arrayTofile false chunk data = .ok (toBytes data) := by
   unfold arrayTofile; rw [tofile_eq chunk _ (wf_mem data) h8 hpos, bin_of_none _ rfl]; rfl
 
 /-- What `Bits(f)` gives inside `Array.fromfile`. -/
-theorem fromfile_source (file : Bytes) (fk : FKind) (hfile : fk = .handle → file ≠ []) :
+theorem fromfile_source (file : Bytes) (fk : FKind) :
     ∃ im, fromfileSource file fk = .ok ⟨bytesToBits file, none, im⟩ := by
   cases fk with
   | bytesio => exact ⟨false, rfl⟩
-  | handle =>
-    have hlen : ¬ file.length = 0 := by
-      intro h0; exact hfile rfl (List.eq_nil_of_length_eq_zero h0)
-    exact ⟨true, by simp [fromfileSource, setFile, hlen, Store.frombuffer]⟩
+  | handle => exact ⟨true, by simp [fromfileSource, setFile, Store.frombuffer]⟩
 
 theorem take_items {α} (l : List α) (m isz : Nat) :
     pySlice l (some 0) (some ((m : Int) * (isz : Int))) = l.take (m * isz) := by
@@ -774,13 +806,13 @@ theorem take_items {α} (l : List α) (m isz : Nat) :
   simpa using this
 
 theorem arrayFromfile_eq (data : Bits) (isz : Nat) (file : Bytes) (fk : FKind) (n : Option Int)
-    (hisz : 0 < isz) (htr : data.length % isz = 0) (hfile : fk = .handle → file ≠ [])
+    (hisz : 0 < isz) (htr : data.length % isz = 0)
     (hn : ∀ k, n = some k → 0 ≤ k ∧ k ≤ ((8 * file.length / isz : Nat) : Int)) :
     arrayFromfile data isz file fk n =
       .ok (data ++ (bytesToBits file).take ((match n with
                                               | none => 8 * file.length / isz
                                               | some k => k.toNat) * isz)) := by
-  obtain ⟨im, hsrc⟩ := fromfile_source file fk hfile
+  obtain ⟨im, hsrc⟩ := fromfile_source file fk
   have h0 : ¬ isz = 0 := by omega
   have h1 : ¬ (data.length % isz ≠ 0) := by omega
   cases n with
@@ -806,35 +838,20 @@ theorem arrayFromfile_trailing' (data : Bits) (isz : Nat) (file : Bytes) (fk : F
 theorem arrayFromfile_short' (data : Bits) (isz : Nat) (file : Bytes) (fk : FKind) (k : Int)
     (hisz : 0 < isz) (htr : data.length % isz = 0) (hk : ((8 * file.length / isz : Nat) : Int) < k) :
     ∃ e, arrayFromfile data isz file fk (some k) = .error e := by
+  obtain ⟨im, hsrc⟩ := fromfile_source file fk
   have h0 : ¬ isz = 0 := by omega
   have h1 : ¬ (data.length % isz ≠ 0) := by omega
-  simp only [arrayFromfile, h0, h1, if_false]
-  cases hs : fromfileSource file fk with
-  | error e => exact ⟨e, rfl⟩
-  | ok s =>
-    rw [ok_bind]
-    have hlen : s.len = 8 * file.length := by
-      cases fk with
-      | bytesio =>
-        simp only [fromfileSource] at hs
-        injection hs with hs; subst hs; simp [Store.len, Store.frombytes]
-      | handle =>
-        simp only [fromfileSource, setFile] at hs
-        split at hs
-        · cases hs
-        · simp [Store.frombuffer] at hs
-          subst hs; simp [Store.len]
-    have hmin : min k ((s.len / isz : Nat) : Int) < k := by rw [hlen]; omega
-    simp only [itemsToAppend, hmin, if_true]
-    exact ⟨_, rfl⟩
+  have hmin : min k ((8 * file.length / isz : Nat) : Int) < k := by omega
+  simp only [arrayFromfile, h0, h1, if_false, hsrc, ok_bind, itemsToAppend, Store.len, bytesToBits_length,
+    hmin, if_true]
+  exact ⟨_, rfl⟩
 
 theorem array_roundtrip_eq (data : Bits) (isz chunk : Nat) (fk : FKind) (h8 : chunk % 8 = 0) (hpos : 0 < chunk)
-    (hisz : 0 < isz) (hne : fk = .handle → data ≠ []) :
-    (arrayTofile chunk data >>= fun w => arrayFromfile [] isz w fk none) =
+    (hisz : 0 < isz) :
+    (arrayTofile false chunk data >>= fun w => arrayFromfile [] isz w fk none) =
       .ok ((padded data).take ((padded data).length / isz * isz)) := by
   rw [arrayTofile_eq' chunk data h8 hpos, ok_bind,
-    arrayFromfile_eq [] isz (toBytes data) fk none hisz (by simp)
-      (fun hk => toBytes_ne_nil data (hne hk)) (by intro k hk; cases hk)]
+    arrayFromfile_eq [] isz (toBytes data) fk none hisz (by simp) (by intro k hk; cases hk)]
   simp only [List.nil_append, bytesToBits_toBytes]
   rw [toBytes_length', padded_dvd]
 
